@@ -153,10 +153,11 @@ type respRun struct {
 }
 
 var httpStatus = []string{"s200", "s201", "s204", "s299", "s301", "s304", "s400", "s404", "s418", "s429", "s500", "s503", "s599"}
-var httpNet = []string{"badstatus", "badheader", "hugeheader", "closebefore", "closeduring"}
-var httpBody = []string{"trunc", "badchunk"}
+var httpNet = []string{"badstatus", "badheader", "hugeheader", "closebefore", "closeduring", "many1xx"}
+var httpBody = []string{"trunc", "badchunk", "chunkhuge", "chunkneg", "chunknocrlf", "chunktrunc"}
+var tunnelLetters = []string{"tunrefused", "tun407", "tungarbage", "tunextra"}
 var httpList = []string{"lst0", "lst1", "lststr", "lstnull", "lstobj"}
-var httpOdd = []string{"early", "empty", "big", "notjson", "jsonarr", "nothtml", "shorthdr", "nohdr"}
+var httpOdd = []string{"early", "empty", "big", "notjson", "jsonarr", "nothtml", "shorthdr", "nohdr", "cont100", "upgrade", "gzipraw", "manyheaders", "dribble"}
 var allPosts = []string{"none", "jsonpath", "header_substr", "xpath", "assert", "all"}
 
 // response-derived lists: a captures `items: $.list`, b's preprocessor indexes it (spec/Responses.tla IdxPosts)
@@ -276,6 +277,8 @@ type respPlan struct {
 	av      string // ammo variant: "" | meta | emptymeta | emptydefault | body
 	avail   string // availability history: the target goes away like this (avreset | avhole) and comes back; staged start-up
 	tls     bool   // handshake-level letter: the run goes to the TLS fault target, keep-alive off
+	gz      bool   // the client decompresses (disable-compression: false)
+	tunnel  bool   // the letter is what the target does to the connect gun's CONNECT
 	sub     int    // n+1: the enumerated substr bounds against a header value of n bytes (one instance); 0: not such a run
 	debug   bool
 	gun     string
@@ -349,6 +352,20 @@ func planAll(mixes int, rnd *rand.Rand, h2 bool) []respPlan {
 			plans = append(plans, respPlan{gun: "http/scenario", posts: p, letters: repeat(l, shots)})
 		}
 	}
+	// Content-Encoding: gzip on garbage, with a client that decompresses (single-letter runs: the gun option is per run)
+	for _, g := range []string{"http", "http/scenario", "connect"} {
+		po := map[string]string{"http": "none", "http/scenario": "all", "connect": "none"}[g]
+		plans = append(plans, respPlan{gun: g, posts: po, letters: repeat("gzipbad", shots), gz: true})
+		if g != "connect" {
+			plans = append(plans, respPlan{gun: g, posts: po, letters: repeat("gzipbad", shots), gz: true, debug: true})
+		}
+	}
+	plans = append(plans, respPlan{gun: "http/scenario", posts: "none", letters: repeat("gzipbad", shots), gz: true})
+	// the connect gun's tunnel is refused / answered 407 / with garbage / with bytes behind the 200
+	for _, l := range tunnelLetters {
+		plans = append(plans, respPlan{gun: "connect", posts: "none", letters: repeat(l, shots), tunnel: true})
+	}
+	plans = append(plans, respPlan{gun: "connect", posts: "none", letters: repeat("tun407", shots), tunnel: true, debug: true})
 	// response-derived lists indexed by a later step's preprocessor: every index form x (empty, one element, not a list,
 	// two elements, no JSON at all, no response at all)
 	for _, l := range httpList {
@@ -582,6 +599,14 @@ func runPlan(idx int, p respPlan, t *respTargets, root string) respRun {
 		}
 		if p.refused {
 			target = t.dead
+			seen = func() int64 { return 0 }
+		}
+		if p.gz {
+			extra += "      disable-compression: false\n"
+		}
+		if p.tunnel {
+			t.raw.Tunnel.Store(p.letters[0])
+			defer t.raw.Tunnel.Store("")
 			seen = func() int64 { return 0 }
 		}
 		if strings.HasPrefix(p.gun, "http2") {
